@@ -131,6 +131,44 @@ def table_twins(ctx, res, c):
             c2.repeated = 7
             if table_digest(a) != d0:
                 res.violation("cell:editing-the-clone-changed-the-table", {"at": [x, y]}, witness)
+    # copies of rows read from the table (they come with copies of its maps), given a life of their own in another table
+    if ga.H:
+        from odfdo import Table
+
+        route = rng.choice(["get_rows", "traverse", "rows", "get_row", "get_rows.clone", "get_elements.clone"])
+        y = rng.randrange(ga.H)
+        try:
+            if route == "get_rows":
+                rc = a.get_rows()[y]
+            elif route == "traverse":
+                rc = list(a.traverse())[y]
+            elif route == "rows":
+                rc = list(a.rows)[y]
+            elif route == "get_row":
+                rc = a.get_row(y)
+            elif route == "get_rows.clone":
+                rc = a.get_rows()[y].clone
+            else:
+                els = a.get_elements("table:table-row")
+                rc = els[min(y, len(els) - 1)].clone
+            d0 = table_digest(a)
+            other = Table("other", 1, 1)
+            other.append_row(rc, clone=False)
+            rc.repeated = rng.choice([2, 3, 5])
+            rc.set_value(0, "COPY-EDIT")
+            other.append_row(rc.clone)
+            res.judge()
+            res.cls(("Row-copy", route, "life-in-another-table"), True)
+            if table_digest(a) != d0:
+                res.violation(f"row:editing-a-copy-attached-elsewhere-changed-the-table:{route}", {"y": y, "route": route}, witness)
+                return
+            got = [list(r) for r in a.get_values()]
+            if tuple(a.size) != (ga.W, ga.H) or not TL.matrix_equal(got, ga.padded()):
+                res.violation(f"row:table-disagrees-with-its-model-after-a-copy-was-edited:{route}", {"y": y, "size": list(a.size), "model": [ga.W, ga.H]}, witness)
+                return
+        except Exception as e:
+            res.violation(f"row:copy-life-raised:{route}:{type(e).__name__}", {"exc": repr(e)}, witness)
+            return
     # life: interleaved operations
     ops = []
     for step in range(rng.randint(2, 6)):
@@ -183,11 +221,31 @@ def element_twins(ctx, res, c):
         host.append(a)
         host.append("tail text")
         a = host.children[0]
+    if rng.random() < 0.35:
+        # raw XML with every kind of tail: a lone space between two inline elements, a blank after a mark, none
+        from odfdo import Element
+
+        from . import c09
+
+        a = Element.from_tag(c09.pieces_xml(c09.gen_pieces(rng), heading=rng.random() < 0.3).replace("</text:p>", '<text:span text:style-name="A">x</text:span> <text:span text:style-name="B">y</text:span><text:s/> <text:bookmark text:name="b"/>\n</text:p>'))
+        pieces = ["raw-xml"]
     before = a.serialize()
     b = a.clone
     res.judge()
     res.cls(("Element", type(a).__name__, "+".join(sorted(set(pieces))), "birth"), True)
     w = {"pieces": pieces}
+    # the inline children, cloned one by one: what follows an element in its parent (its tail) is part of what
+    # the element reports (tail, text_recursive)
+    for ch in a.children[:8]:
+        cl = ch.clone
+        res.judge()
+        res.cls(("Element-child", type(ch).__name__, "blank-tail" if ch.tail is not None and not ch.tail.strip() else ("tail" if ch.tail else "no-tail")), True)
+        if cl.serialize() != ch.serialize() or type(cl) is not type(ch) or cl.tail != ch.tail or cl.text_recursive != ch.text_recursive:
+            res.violation("element:child-clone-differs-at-birth", {"child": ch.serialize()[:200], "tail": ch.tail, "clone_tail": cl.tail, "text_recursive": [ch.text_recursive, cl.text_recursive]}, w)
+            return
+        if a.serialize() != before:
+            res.violation("element:cloning-a-child-changed-the-parent", {}, w)
+            return
     if a.serialize() != before:
         res.violation("element:cloning-changed-original", {}, w)
         return
